@@ -9,6 +9,7 @@ mod c11;
 mod c12;
 mod c14;
 mod c15;
+mod c16;
 mod c18;
 mod corpus;
 mod fmt;
@@ -58,6 +59,15 @@ fn main() {
         "c15" => {
             let scratch = args.get(5).cloned().unwrap_or_else(|| "/verif/.build/scratch".to_string());
             c15::run(&mut out, tier, seed, &scratch)
+        }
+        "c16" => {
+            let scratch = args.get(5).cloned().unwrap_or_else(|| "/verif/.build/scratch".to_string());
+            c16::run(&mut out, tier, seed, &scratch)
+        }
+        "c16child" => {
+            drop(out);
+            let code = c16::child(&args[5], &args[6], args[7] == "1", args[8] == "1");
+            std::process::exit(code);
         }
         "c18" => {
             let scratch = args.get(5).cloned().unwrap_or_else(|| "/verif/.build/scratch".to_string());
